@@ -619,7 +619,8 @@ func float32ToF16Bits(f float32) uint16 {
 	switch {
 	case exp == 128: // inf or NaN
 		if frac != 0 {
-			return sign | 0x7C00 | uint16(frac>>13)
+			// keep NaN a NaN even when only low payload bits are set
+			return sign | 0x7C00 | 0x200 | uint16(frac>>13)
 		}
 		return sign | 0x7C00
 	case exp > 15:
@@ -639,11 +640,17 @@ func float32ToF16Bits(f float32) uint16 {
 			}
 		}
 		return sign | uint16(exp+15)<<10 | f16Frac
-	case exp > -25:
-		// Subnormal range for f16.
+	case exp >= -25:
+		// Subnormal range for f16 (exp == -25 can still round up to the
+		// smallest subnormal). Round to nearest even.
 		frac |= 0x800000
-		shift := uint(-14 - exp)
-		f16Frac := uint16(frac >> (shift + 13)) //nolint:gosec // frac>>shift always fits in uint16
+		shift := uint(-14-exp) + 13
+		f16Frac := uint16(frac >> shift) //nolint:gosec // frac>>shift always fits in uint16
+		remainder := frac & (1<<shift - 1)
+		halfway := uint32(1) << (shift - 1)
+		if remainder > halfway || (remainder == halfway && f16Frac&1 != 0) {
+			f16Frac++ // may carry into the smallest normal, which is the right encoding
+		}
 		return sign | f16Frac
 	default:
 		return sign // underflow → zero
